@@ -1720,3 +1720,28 @@ pub fn stream_init<C: Case, A: Automaton, const SPARE: usize>(aut: &A) {
     assert!(cap == C::MAXLEN + SPARE && cap > min, "roll buffer capacity does not exceed the longest pattern");
     core::mem::forget(it);
 }
+
+/// C18 (writer side, light form): a writer that fails at a symbolic call makes
+/// stream replacement return `Err` without a panic and without any further
+/// write; without a failure it returns `Ok`. (That what was written before the
+/// failure is correct follows from the chunk induction of `stream_step`.)
+#[cfg(kani)]
+pub fn stream_wfault<C: Case, A: Automaton, const T: usize, const W: usize>(aut: &A) {
+    aho_corasick::verif::buffer::set_spare_capacity(Some(1));
+    let hay: [u8; T] = any();
+    let rdr = SymReader::new(&hay[..], 0, usize::MAX);
+    let fail_at: usize = any();
+    let mut wtr = SymWriter::<W> { out: [0; W], len: 0, calls: 0, fail_at, failed: false, overflow: false };
+    let res = aut.try_stream_replace_all_with(rdr, &mut wtr, |m, _bytes, w| {
+        std::io::Write::write_all(w, &[b'0' + m.pattern().as_usize() as u8])
+    });
+    if wtr.failed {
+        assert!(res.is_err(), "writer failure not reported");
+        assert!(wtr.calls == fail_at + 1, "the writer is used again after it failed");
+    } else {
+        assert!(res.is_ok(), "stream replacement failed without a fault");
+    }
+    cover!(wtr.failed && wtr.len > 0, "a writer failure after some output");
+    cover!(!wtr.failed, "no failure");
+    core::mem::forget(res);
+}
